@@ -182,8 +182,18 @@ def _pools_case(draw):
     for _ in range(draw(st.integers(0, 2))):
         singles.append({"node": draw(st.integers(0, n + 1)), "did": draw(_IDTXT), "details": draw(_details(atype)),
                         "first": draw(st.booleans())})
+    edits = []
+    if draw(st.integers(0, 2)) == 0:
+        # a second round on the same registry: pools re-keyed / given other details through their setters, pools
+        # re-indexed, per-node delegations generated again
+        for _ in range(draw(st.integers(1, 2))):
+            if draw(st.booleans()):
+                edits.append({"k": draw(st.integers(0, 3)), "did": draw(st.one_of(
+                    st.sampled_from(sorted({p["did"] for p in pools})), _IDTXT))})
+            else:
+                edits.append({"k": draw(st.integers(0, 3)), "details": draw(_details(atype))})
     return {"kind": "pools", "atype": atype, "pools": pools, "order": list(order),
-            "via_json": draw(st.booleans()), "singles": singles}
+            "via_json": draw(st.booleans()), "singles": singles, "edits": edits}
 
 
 @st.composite
@@ -593,6 +603,37 @@ def _run_pools(case):
             bad("Pools.generate_delegations_by_node_id/type", f"{n}: {d.type}")
     if _norm_pools(ps) != exp_pools:
         bad("Pools.generate_delegations_by_node_id/mutates", f"registry afterwards {_norm_pools(ps)}")
+
+    # ---- a second round on the same registry after its pools were edited through their public setters: indexing
+    #      and generation must describe the pools as they are NOW (same delegation id and details as the pool carries)
+    if case.get("edits"):
+        labels.append("pools:second-round-after-edit")
+        pools2 = json.loads(json.dumps(pools))
+        for e in case["edits"]:
+            k = e["k"] % len(pools2)
+            po = ps.get_pool_by_id(pool_id=pools2[k]["id"], strict=True)
+            if "did" in e:
+                pools2[k]["did"] = e["did"]
+                po.set_delegation_id(delegation_id=e["did"])
+            else:
+                pools2[k]["details"] = e["details"]
+                po.set_pool_details(_mk_details(atype, e["details"]))
+        exp2 = _exp_by_node(atype, pools2, name)
+        try:
+            ps.build_index_by_delegation_id()
+            by2 = ps.generate_delegations_by_node_id()
+        except Exception as e:
+            if exp2 is not None:
+                bad("Pools/second-round/raised", f"{type(e).__name__}: {e}")
+        else:
+            if exp2 is None:
+                bad("Pools/second-round/duplicate-id-accepted", "a node carries one delegation id twice after the edit")
+            else:
+                got2 = {n: _norm_delegations(d) for n, d in by2.items()}
+                if got2 != exp2:
+                    bad("Pools/second-round/stale", f"after edits {case['edits']}: {got2} expected {exp2}")
+                if sorted(ps.get_delegation_ids()) != sorted({p["did"] for p in pools2}):
+                    bad("Pools/second-round/index/delegation-ids", f"{sorted(ps.get_delegation_ids())}")
 
     # ---- clause 3a: regroup (optionally through JSON, in the generated node order, with single delegations mixed in)
     per_node = {}
